@@ -316,7 +316,7 @@ func ifaceDyn(ki int) (t *abi.Type, store []byte) {
 	switch ki % 5 {
 	case 0:
 		b := retain(make([]byte, 8))
-		binary.LittleEndian.PutUint64(b, uint64(int64(ki)*31-7))
+		binary.LittleEndian.PutUint64(b, uint64(int64(ki)*31))
 		return d.typ(tInt64), b
 	case 1:
 		b := retain(make([]byte, 16))
@@ -348,7 +348,7 @@ func encodeKey(kt string, ki int) unsafe.Pointer {
 	switch kt {
 	case "int64":
 		b := keyBuf(8)
-		binary.LittleEndian.PutUint64(b, uint64(int64(ki)*7919-1000))
+		binary.LittleEndian.PutUint64(b, uint64(int64(ki)*7919-int64(ki%3)*1000)) // ki 0 is the zero key
 		return unsafe.Pointer(&b[0])
 	case "int8":
 		b := keyBuf(1)
@@ -375,7 +375,7 @@ func encodeKey(kt string, ki int) unsafe.Pointer {
 		b := keyBuf(24)
 		binary.LittleEndian.PutUint32(b, uint32(ki%3))
 		binary.LittleEndian.PutUint32(b[4:], 0xdeadbeef+uint32(ki)*3) // padding: must be ignored
-		putString(b[8:], strKey("s", ki/3+1))
+		putString(b[8:], strKey("s", ki/3))                           // ki 0 is the all-zero key
 		return unsafe.Pointer(&b[0])
 	case "iface":
 		b := keyBuf(16)
@@ -410,7 +410,7 @@ func encodeKey(kt string, ki int) unsafe.Pointer {
 	case "big":
 		b := keyBuf(160)
 		for i := 0; i < 20; i++ {
-			binary.LittleEndian.PutUint64(b[i*8:], uint64(ki)*uint64(i+1)+uint64(i))
+			binary.LittleEndian.PutUint64(b[i*8:], uint64(ki)*uint64(i+1)) // ki 0 is the all-zero key
 		}
 		return unsafe.Pointer(&b[0])
 	}
